@@ -160,8 +160,23 @@ def describe(cfg):
     return ', '.join(parts) or 'default'
 
 
+def make_recorder(log):
+    """wraps Scheme._ensure_properties: the strides asked for (copied before the call) are remembered per array, the real body is then interpreted"""
+    def ensure(it, f, args, kwargs, node, env):
+        vals = list(args)
+        pa = vals[0] if vals else kwargs.get('pa')
+        desired = vals[1] if len(vals) > 1 else kwargs.get('desired_props')
+        if isinstance(pa, A.Obj) and not A.unknown(desired):
+            for spec in it.iterate(desired, node):
+                if isinstance(spec, dict) and isinstance(spec.get('name'), str) and isinstance(spec.get('stride', 1), int):
+                    log.append((pa, spec['name'], spec.get('stride', 1), node, env.get('__rel__')))
+        return it.call_function(f, args, kwargs, node)
+    return ensure
+
+
 def run_scheme(ci, rel, cls, cfg):
-    it = A.Interp(ci, cfg)
+    strides = []
+    it = A.Interp(ci, cfg, intrinsics={('pysph/sph/scheme.py', 'Scheme', '_ensure_properties'): make_recorder(strides)})
     cref = A.ClassRef(rel, cls)
     obj = instantiate(it, cref)
     res = {'equations': [], 'steppers': [], 'arrays': {}, 'ctor': [], 'stage': 'get_equations'}
@@ -198,6 +213,7 @@ def run_scheme(ci, rel, cls, cfg):
         if bad:
             res['ctor'].append((inst, bad))
     res['it'] = it
+    res['strides'] = strides
     res['stage'] = 'done'
     return res
 
@@ -239,6 +255,17 @@ def main(chk):
                     crashes.setdefault(key, (describe(cfg), res.node, res.rel))
                     continue
                 it = res['it']
+                first = {}
+                for pa, pname, want, node, r2 in res['strides']:
+                    first.setdefault(pname, want)
+                for pa, pname, want, node, r2 in res['strides']:
+                    want = first[pname]      # a spec list shared between arrays must mean the same for each of them
+                    got = pa.attrs['stride'].get(pname, 1)
+                    if pname in pa.attrs['properties'] and got != want and not pa.attrs['top']:
+                        k = ('stride', 'setup_properties', pa.attrs['name'], '%s:%s!=%s' % (pname, got, want))
+                        if k not in missing:
+                            missing[k] = [describe(cfg), node, r2, 0, '']
+                        missing[k][3] += 1
                 for inst, bad in res['ctor']:
                     ctor.setdefault((inst.cls.node.name, bad), (describe(cfg), inst.node, inst.rel))
                 for inst in res['equations']:
@@ -286,9 +313,18 @@ def main(chk):
         for (cname, bad), (conf, node, r2) in sorted(ctor.items()):
             chk.violated('constructor-keywords', '%s:%s' % (who, cname), node=node, file=r2 or rel, func=who, detail='%s - configuration [%s]' % (bad, conf))
         for (kind, cname, role, prop), (conf, node, r2, cnt, hook) in sorted(missing.items()):
+            if kind == 'stride':
+                pn, rest = prop.split(':')
+                got, want = rest.split('!=')
+                chk.violated('strides-as-requested', '%s:%s:%s' % (who, role.strip('<>'), pn), node=node, file=r2 or rel, func='%s.setup_properties' % who,
+                             detail='the %s array ends up with stride %s for `%s` although setup_properties asked for %s (%d of %d configurations, e.g. [%s]): the array is too short for the '
+                                    'equations that index it with that stride' % (role.strip('<>'), got, pn, want, cnt, ncfg, conf))
+                continue
             chk.violated('requirements-provided', '%s:%s:%s:%s' % (who, cname, role.strip('<>'), prop), node=node, file=r2 or rel, func='%s.%s' % (who, 'get_equations' if kind == 'equation' else 'configure_solver'),
                          detail='%s.%s needs %s on the %s array, which setup_properties does not provide in %d of %d configurations, e.g. [%s]'
                                 % (cname, hook, prop, role.strip('<>'), cnt, ncfg, conf))
+        if not any(k[0] == 'stride' for k in missing):
+            chk.holds('strides-as-requested', who, node=cls, file=rel, func=who, detail='every strided property has the requested stride on every array that receives it')
         bad_sites = set((c, r) for k, c, r, p in missing)
         for cname, role, side in sorted(sites):
             if (cname, role) not in bad_sites:
